@@ -175,6 +175,37 @@ fn one_shot(ctx: &mut Ctx, name: &str, x: &[u8], codec: u8, rng: &mut Rng, py_di
     }
 }
 
+/// Back-to-back calls on near-identical inputs: x, then a sibling of the same length that differs from x in one byte (middle,
+/// a third, first or last byte), then x again — each result must decompress to the input of ITS call (no result may depend on
+/// an earlier call on the same thread).
+fn siblings(ctx: &mut Ctx, name: &str, x: &[u8], codec: u8, rng: &mut Rng) {
+    if x.len() < 2 {
+        return;
+    }
+    let comp = gen::comp(codec);
+    let at = match rng.below(5) {
+        0 | 1 => x.len() / 2,
+        2 => x.len() / 3,
+        3 => 0,
+        _ => x.len() - 1,
+    };
+    let mut x2 = x.to_vec();
+    x2[at] ^= 1 << rng.below(8);
+    let seq: [(&str, &[u8]); 3] = [("first call", x), ("sibling right after", &x2), ("original again", x)];
+    for (what, inp) in seq {
+        let m = || mat(name, inp, codec, &format!("back-to-back near-identical inputs ({what}; sibling differs at byte {at})"));
+        match guard(|| compress_all(comp, inp).and_then(|z| decompress_all(comp, &z))) {
+            Ok(Ok(y)) if y == inp => ctx.count("back_to_back_sibling_calls_ok"),
+            Ok(Ok(y)) => {
+                let d = y.iter().zip(inp.iter()).position(|(a, b)| a != b).unwrap_or(y.len().min(inp.len()));
+                ctx.violation("util::compress_all", "not-inverse", "decompress_all(compress_all(x)) != x", &format!("{what}: {} bytes in, {} bytes back, first difference at byte {d}", inp.len(), y.len()), m());
+            }
+            Ok(Err(e)) => ctx.violation("util::compress_all", "not-inverse", "round trip of a back-to-back call fails", &e.to_string(), m()),
+            Err(p) => ctx.panic("util::compress_all", &p, m()),
+        }
+    }
+}
+
 fn streamed(ctx: &mut Ctx, name: &str, x: &[u8], codec: u8, chunks: &Sched, under: &Sched, asyncm: bool, rng: &mut Rng) {
     let comp = gen::comp(codec);
     // half of the streams are flushed now and then in the middle (write, flush, write, ...): legal, and the stream must stay one
@@ -471,6 +502,9 @@ pub fn run(ctx: &mut Ctx) {
                     continue;
                 }
                 one_shot(ctx, &name, &x, codec, &mut rng, py_dir.as_deref(), &mut py_left);
+                if codec != R::C_BROTLI || x.len() <= 100_000 {
+                    siblings(ctx, &name, &x, codec, &mut rng);
+                }
                 let big = x.len() > 200_000;
                 let mut modes: Vec<(Sched, Sched)> = vec![
                     (Sched::Fixed(65_536), Sched::Full),
